@@ -185,6 +185,48 @@ func c10Body(c *run.Ctx) {
 		}
 	}
 	hooks.AtDecision = func(s *sim.Sim, d *sim.Decision) {
+		// the table is paused or closed from outside in the middle of a hand: from then on no
+		// hand is being played; the action the hand was waiting for, and everything else, is
+		// refused without a trace. The case ends there.
+		if d.Kind == "turn" && choose.Chance(c.Ch, "midhand.stop", 3) {
+			op := "PauseTable"
+			var err error
+			if choose.Chance(c.Ch, "midhand.close", 50) {
+				op = "CloseTable"
+				err = s.API.CloseTable()
+			} else {
+				err = s.API.PauseTable()
+			}
+			s.Drain()
+			c.Ch.Note("  %s in the middle of hand %d -> %v (status %s)", op, s.Cur.N, err, s.Now().State.Status)
+			if err == nil {
+				pid := d.M[d.Cur]
+				cur := d.GS.GetPlayer(d.Cur)
+				for _, kind := range []string{"check", "call", "fold", "allin", "pass"} {
+					if cur == nil || !inList(cur.AllowedActions, kind) {
+						continue
+					}
+					before := captureState(s, actionEvents)
+					aerr := s.Do(pid, kind, 0)
+					s.Drain()
+					after := captureState(s, actionEvents)
+					detail := fmt.Sprintf("%s by %s, whose turn it was (allowed %v), after %s in the middle of the hand (status %s)", kind, pid, cur.AllowedActions, op, s.Now().State.Status)
+					if aerr == nil {
+						c.Failf("C10.accepted-while-no-hand-is-played."+kind, "accepted although the table is not playing: %s", detail)
+					}
+					if before.table != after.table || before.game != after.game || before.calls != after.calls || before.actions != after.actions || before.events != after.events {
+						c.Failf("C10.refused-changed-table", "refused action left a trace: %s", detail)
+					}
+					break
+				}
+				for i := 0; i < 2; i++ {
+					attempt(s, d, "table_stopped_mid_hand")
+				}
+				s.Label("table_stopped_mid_hand_" + op)
+				c.St.Case(s.Labels(), true, traceOf(s), sampleOf(s))
+				c.End()
+			}
+		}
 		n := 0
 		if choose.Chance(c.Ch, "intr.any", 55) {
 			n = c.Ch.Int("intr.n", 1, 3)
